@@ -199,3 +199,32 @@ package encoder
 //@   let v = version.versionNumber
 //@   let w = (v << 12) | decoder.gf2rem(v << 12, 7973, 17, 12)
 //@   ensures e == nil && bits.size == 18 && (forall k int :: 0 <= k && k < 18 ==> gozxing.bit(bits, k) == ((w >> uint(17 - k)) & 1 == 1))
+
+// ---------------------------------------------------------------- terminator and padding (8.4.8, 8.4.9), C01 / C07
+// padbyte(m): the m-th pad codeword, 11101100 and 00010001 alternating
+//@ spec func padbyte(m int) int = m % 2 == 0 ? 236 : 17
+//@ spec func termEnd(s int, capacity int) int = (s + 4 <= capacity ? s + 4 : capacity)
+//@ spec func byteEnd(t int) int = t % 8 == 0 ? t : t + (8 - t % 8)
+//@ func terminateBits(numDataBytes int, bits *gozxing.BitArray) (e gozxing.WriterException)
+//@   property C01 C07
+//@   opt tier=thorough
+//@   mode bv
+//@   let S = old(bits.size)
+//@   let C = numDataBytes * 8
+//@   let Z = byteEnd(termEnd(S, C))
+//@   requires bits != nil && gozxing.wfBA(bits) && gozxing.padBA(bits) && 0 <= numDataBytes && numDataBytes <= 4000 && bits.size <= 1000000
+//@   ensures (S > C) == (e != nil)
+//@   ensures e == nil ==> bits.size == C && gozxing.wfBA(bits) && gozxing.padBA(bits)
+//@   ensures e == nil ==> forall k int :: 0 <= k && k < S ==> gozxing.bit(bits, k) == old(gozxing.bit(bits, k))
+//@   ensures e == nil ==> forall k int :: S <= k && k < Z ==> !gozxing.bit(bits, k)
+//@   ensures e == nil ==> forall m int, j int :: 0 <= m && m < numDataBytes - Z / 8 && 0 <= j && j < 8 ==> gozxing.bit(bits, Z + 8 * m + j) == ((padbyte(m) >> uint(7 - j)) & 1 == 1)
+//@   loop 0: invariant 0 <= i && i <= 4 && bits.size == S + i && bits.size <= C && capacity == C && S <= C && gozxing.wfBA(bits) && gozxing.padBA(bits)
+//@   loop 0: invariant (forall k int :: 0 <= k && k < S ==> gozxing.bit(bits, k) == old(gozxing.bit(bits, k))) && (forall k int :: S <= k && k < bits.size ==> !gozxing.bit(bits, k))
+//@   loop 0: decreases 4 - i
+//@   loop 1: invariant numBitsInLastByte == termEnd(S, C) % 8 && numBitsInLastByte > 0 && numBitsInLastByte <= i && i <= 8 && bits.size == termEnd(S, C) - numBitsInLastByte + i && capacity == C && S <= C && gozxing.wfBA(bits) && gozxing.padBA(bits)
+//@   loop 1: invariant (forall k int :: 0 <= k && k < S ==> gozxing.bit(bits, k) == old(gozxing.bit(bits, k))) && (forall k int :: S <= k && k < bits.size ==> !gozxing.bit(bits, k))
+//@   loop 1: decreases 8 - i
+//@   loop 2: invariant 0 <= i && i <= numPaddingBytes && numPaddingBytes == numDataBytes - Z / 8 && bits.size == Z + 8 * i && capacity == C && S <= C && Z <= C && gozxing.wfBA(bits) && gozxing.padBA(bits)
+//@   loop 2: invariant (forall k int :: 0 <= k && k < S ==> gozxing.bit(bits, k) == old(gozxing.bit(bits, k))) && (forall k int :: S <= k && k < Z ==> !gozxing.bit(bits, k))
+//@   loop 2: invariant forall m int, j int :: 0 <= m && m < i && 0 <= j && j < 8 ==> gozxing.bit(bits, Z + 8 * m + j) == ((padbyte(m) >> uint(7 - j)) & 1 == 1)
+//@   loop 2: decreases numPaddingBytes - i
